@@ -140,6 +140,12 @@ ModCmp(e, i) ==
        ELSE IF e.enum_sensitive
             THEN IF "D_C12_enumeral_lookup" \in KnownDevs THEN Report(i, "DEVIATION", "D_C12_enumeral_lookup")
                  ELSE Report(i, "MISMATCH", "C12: the bindings of an enumeral value change with the neighbouring modules (D_C12_enumeral_lookup, not a listed known finding)")
+            \* D_C12_same_name_env (spec/Headers.tla, EnvFrom = "head"): definitions are grouped by the *name* of their module and the
+            \* backend takes the environment of the group's first definition: of two modules that carry one module reference, one
+            \* is generated under the other's defaults
+            ELSE IF e.same_name
+            THEN IF "D_C12_same_name_env" \in KnownDevs THEN Report(i, "DEVIATION", "D_C12_same_name_env")
+                 ELSE Report(i, "MISMATCH", "C12: a module is generated under the defaults of another module of the same module reference (D_C12_same_name_env, not a listed known finding)")
             ELSE Report(i, "MISMATCH", "C12: the bindings of a module change with its neighbours: " \o e.ctx)
     /\ UNCHANGED <<broken, dropped>> /\ UNCHANGED pvars
 \* each IMPORTS clause becomes a use declaration of exactly the imported symbols from the sibling module
